@@ -6,7 +6,7 @@
      the file cell is still exactly a0 (original bytes AND mode) and the temp file is absent or holds a prefix of
      the output with mode 0600,  OR  the outcome renames, no temp file exists, and the file holds the COMPLETE
      output with mode 0600 (window between rename and chmod) or with its original mode. *)
-From Miller Require Import Base.Bytes C19.Model C19.Proofs.
+From Miller Require Import Base.Bytes Base.Record C05.Model C19.Model C19.Proofs C19.ModelRun C19.ProofsRun.
 Open Scope list_scope.
 
 (* crash at ANY point, any number of files, any outcome per file (success, DSL/input error mid-stream, refusal,
@@ -75,6 +75,81 @@ Theorem C19_rename_chmod_window :
   = Some (List.concat ch, temp_mode).
 Proof. exact rename_chmod_window. Qed.
 Print Assumptions C19_rename_chmod_window.
+
+(* On success each file equals what the same command WITHOUT -I prints for that file ALONE: for every reader option set,
+   every chain of C05-modelled verbs, every writer and every chunking of the output, after `mlr -I` over f1..fn each
+   file holds exactly stdout_alone(fi) = writer (chain from its INITIAL state (records of fi read with a NEW context:
+   NR/FNR from 1, FILENUM 1, own header)), with its original mode, and no temp file is left.  stdout_alone is built from
+   C05.Model.read_files / run_list, the definitions C05's correspondence ties to the real reader and verbs; that the
+   temp file receives what the command prints for that file alone is tied here by the oracle (file == stdout of the
+   same command without -I on that file, for head / NR / FNR / FILENAME / begin-end scenarios). *)
+Theorem C19_success_equals_stdout_run_per_file :
+  forall o vs wr chunk files st,
+  (forall b, List.concat (chunk b) = b) ->
+  wf (inplace_plan o vs wr chunk files) st ->
+  forall p t m f, In (p, t, m, f) files ->
+  exec (all_ops (inplace_plan o vs wr chunk files)) st p = Some (stdout_alone o vs wr f, m) /\
+  exec (all_ops (inplace_plan o vs wr chunk files)) st t = None.
+Proof. exact success_equals_stdout_run_per_file. Qed.
+Print Assumptions C19_success_equals_stdout_run_per_file.
+
+(* non-vacuous, and NOT the same as the run without -I over all files together: `head -n 1 then put $nr=NR` over two DKVP
+   files -- in place each file keeps ITS first record with nr=1; the plain run prints one record in total *)
+Example C19_per_file_nonvacuous :
+  let o := ROpts MPairs false true false in
+  let vs := [v_head 1] in
+  let wr := fun rs : list record => List.concat (map (fun r => List.concat (map (fun kv => fst kv ++ B "=" ++ snd kv ++ B ";") r)) rs) in
+  let f1 : C05.Model.file := (B "a", [[(B "x", B "1")]; [(B "x", B "2")]]) in
+  let f2 : C05.Model.file := (B "b", [[(B "x", B "3")]; [(B "x", B "4")]]) in
+  let st : fsys := set (B "a") (Some (B "old", 420%N)) (set (B "b") (Some (B "old", 384%N)) (fun _ => None)) in
+  let plan := inplace_plan o vs wr (fun b => [b]) [(B "a", B "t1", 420%N, f1); (B "b", B "t2", 384%N, f2)] in
+  nodup_paths (files_of plan ++ tmps_of plan) = true /\
+  exec (all_ops plan) st (B "a") = Some (B "x=1;", 420%N) /\
+  exec (all_ops plan) st (B "b") = Some (B "x=3;", 384%N) /\
+  stdout_together o vs wr [f1; f2] = B "x=1;".
+Proof. vm_compute. repeat split; reflexivity. Qed.
+
+(* inputs that cannot be updated in place -- URLs (http:// https:// file://), any name under --prepipe/--prepipex, bzip2 by
+   flag or by .bz2 suffix -- are refused BEFORE ANYTHING IS MODIFIED: if ANY name of the command line is such an input
+   (first, middle or LAST in the list), the command performs no file-system operation at all, so every path of the file
+   system is as before at every instant.  (processFilesInPlace pre-pass; before the repair the check was made when the
+   file's turn came, after the files named before it had been rewritten.) *)
+Theorem C19_refusals_before_any_write :
+  forall prepipe flag plan,
+  (exists e, In e plan /\ updatable prepipe flag (e_file e) = false) ->
+  inplace_ops prepipe flag plan = [] /\
+  forall st k p, exec (firstn k (inplace_ops prepipe flag plan)) st p = st p.
+Proof.
+  exact (fun prepipe flag plan H => conj (inplace_ops_refused prepipe flag plan H) (refusals_before_any_write prepipe flag plan H)).
+Qed.
+Print Assumptions C19_refusals_before_any_write.
+
+(* ... and otherwise the command is exactly the per-file sequence all the theorems above are about *)
+Theorem C19_updatable_inputs_are_processed :
+  forall prepipe flag plan,
+  (forall e, In e plan -> updatable prepipe flag (e_file e) = true) -> inplace_ops prepipe flag plan = all_ops plan.
+Proof. exact inplace_ops_accepted. Qed.
+Print Assumptions C19_updatable_inputs_are_processed.
+
+(* which inputs are accepted: not a URL, no prepipe, encoding (flag, else suffix) other than bzip2; gzip / zlib / zstd by
+   flag are accepted whatever the name (since the zstd repair all three are rewritten compressed) *)
+Theorem C19_accepted_inputs :
+  forall prepipe flag f,
+  (updatable prepipe flag f = true <-> is_url f = false /\ prepipe = false /\ input_encoding flag f <> EncBzip2) /\
+  (is_url f = false ->
+   updatable false EncGzip f = true /\ updatable false EncZlib f = true /\ updatable false EncZstd f = true /\
+   updatable false EncBzip2 f = false).
+Proof. exact (fun prepipe flag f => conj (updatable_spec prepipe flag f) (compressions_accepted f)). Qed.
+Print Assumptions C19_accepted_inputs.
+
+(* the refusal hypotheses are satisfiable: a good file first, a .bz2 name LAST; and a URL under no flag *)
+Example C19_refusal_nonvacuous :
+  let plan := [(B "good.csv", B "t1", 420%N, Succeeds [B "new"]); (B "x.bz2", B "t2", 420%N, RefusedAfterCreate)] in
+  inplace_ops false EncDefault plan = [] /\ all_ops plan <> [] /\
+  updatable false EncDefault (B "x.bz2") = false /\ updatable false EncDefault (B "https://h/x") = false /\
+  updatable true EncDefault (B "good.csv") = false /\ updatable false EncDefault (B "k.csv.zst") = true /\
+  inplace_ops false EncDefault [(B "good.csv", B "t1", 420%N, Succeeds [B "new"])] <> [].
+Proof. vm_compute. repeat split; discriminate. Qed.
 
 (* hypotheses are satisfiable: two files, the second fails while its recompressor is being closed *)
 Example C19_nonvacuous :
